@@ -4,9 +4,10 @@ CONSTANTS
   Anns = {"both"}
   Sizes = {0, 1, 2, 3, 4, 5, 6}
   MaxFaults = 2
-  MaxInject = 2
+  MaxInject = 1
   FaultKinds = {"Lose", "Drop", "Dup", "Flip", "WrongSid", "WrongFrom", "Swap", "EarlyClose"}
-  InjectKinds = {"from", "sid"}
+  InjectKinds = {"from", "res"}
+  InjectElems = {"data", "close"}
   Bursts = {}
   MaxHist = 99
 VIEW View
